@@ -190,6 +190,20 @@ func runCheckFinality(ctx *action.Context, tx action.RawTx) (bool, action.Respon
 			}
 			return true, action.Response{Log: "Redeem Tracker Failed"}
 		}
+		if tracker.Type == trackerlib.ProcessTypeLockERC {
+			err := failedLock(ctx, tracker, *f)
+			if err != nil {
+				return false, action.Response{Log: errors.Wrap(err, "unable to finalize lock TX").Error()}
+			}
+			return true, action.Response{Log: "Lock ERC Tracker Failed"}
+		}
+		if tracker.Type == trackerlib.ProcessTypeRedeemERC {
+			err := refundERC20Tokens(ctx, tracker, *f)
+			if err != nil {
+				return false, action.Response{Log: errors.Wrap(err, "unable to refund tokens").Error()}
+			}
+			return true, action.Response{Log: "Redeem ERC Tracker Failed"}
+		}
 		return true, action.Response{Log: "Tracker has enough votes to be Failed , Tracker Type Unknown"}
 	}
 
@@ -255,6 +269,44 @@ func refundTokens(ctx *action.Context, tracker *trackerlib.Tracker, oltTx Report
 	err = ctx.Balances.AddToAddress(ethSupply, oEthRefundCoin)
 	if err != nil {
 		return errors.New("Unable to update total Eth supply")
+	}
+	return nil
+}
+
+//Refund the tokens of an ERC20 redeem the witnesses reported as failed
+func refundERC20Tokens(ctx *action.Context, tracker *trackerlib.Tracker, oltTx ReportFinality) error {
+	ethOpt, err := ctx.GovernanceStore.GetETHChainDriverOption()
+	if err != nil {
+		return gov.ErrGetEthOptions
+	}
+	redeemParams, err := ethereum.ParseERC20RedeemParams(tracker.SignedETHTx, ethOpt.ERCContractABI)
+	if err != nil {
+		return errors.Wrap(action.ErrInvalidExtTx, err.Error())
+	}
+	token, err := ethereum.GetToken(ethOpt.TokenList, redeemParams.TokenAddress)
+	if err != nil {
+		return err
+	}
+	ctx.Logger.Info("Failing Tracker  [ Token Refund :", token.TokName, "]| Process Type : ", tracker.Type.String())
+	curr, ok := ctx.Currencies.GetCurrencyByName(token.TokName)
+	if !ok {
+		return errors.New("Currency not allowed ")
+	}
+	tracker.State = trackerlib.Failed
+	err = ctx.ETHTrackers.WithPrefixType(trackerlib.PrefixOngoing).Set(tracker)
+	if err != nil {
+		return errors.Wrap(err, "unable to Fail tracker")
+	}
+	refundCoin := curr.NewCoinFromAmount(*balance.NewAmountFromBigInt(redeemParams.Amount))
+	err = ctx.Balances.AddToAddress(tracker.ProcessOwner, refundCoin)
+	if err != nil {
+		ctx.Logger.Error(err)
+		return errors.Errorf("Unable to refund token : %s", token.TokName)
+	}
+	tokenSupply := keys.Address(ethOpt.TotalSupplyAddr)
+	err = ctx.Balances.AddToAddress(tokenSupply, refundCoin)
+	if err != nil {
+		return errors.Errorf("Unable to update totalSupply for token : %s", token.TokName)
 	}
 	return nil
 }
